@@ -512,6 +512,9 @@ p_uthread_local_free (PUThreadKey *key)
 	if (P_UNLIKELY (key == NULL))
 		return;
 
+	/* The native key itself is left alive: other threads may still hold
+	 * values which are destroyed on their exit */
+	p_free (key->key);
 	p_free (key);
 }
 
